@@ -64,7 +64,7 @@ func (g *gateT) count() int {
 }
 
 func (g *gateT) waitCount(n int) error {
-	deadline := time.Now().Add(20 * time.Second)
+	deadline := time.Now().Add(8 * time.Second)
 	for g.count() < n {
 		if time.Now().After(deadline) {
 			return errors.New("flush worker did not reach the gate")
@@ -108,7 +108,7 @@ type wgEntry struct {
 }
 
 type wgOp struct {
-	K     string    `json:"k"` // put | rotate | flush | app | hs | compact | watchdog
+	K     string    `json:"k"` // put | rotate | flush | app | hs | compact | watchdog | reopen
 	Key   uint64    `json:"key,omitempty"`
 	Val   uint64    `json:"val,omitempty"`
 	G     uint64    `json:"g,omitempty"`
@@ -347,7 +347,9 @@ func (r *wgRun) ptrs() string {
 	return corr.List(out)
 }
 
-func (r *wgRun) emit(opTerm string, withProbe bool) error {
+func (r *wgRun) emit(opTerm string, withProbe bool) error { return r.emitAs("Ws", opTerm, withProbe) }
+
+func (r *wgRun) emitAs(ctor, opTerm string, withProbe bool) error {
 	pr := "None"
 	if withProbe {
 		p, err := r.probe()
@@ -357,7 +359,7 @@ func (r *wgRun) emit(opTerm string, withProbe bool) error {
 		pr = p
 		r.c.Count("probes")
 	}
-	r.steps = append(r.steps, fmt.Sprintf("Ws %s %s %s %s", opTerm, corr.ListN(walIDs(r.dir)), r.ptrs(), pr))
+	r.steps = append(r.steps, fmt.Sprintf("%s %s %s %s %s", ctor, opTerm, corr.ListN(walIDs(r.dir)), r.ptrs(), pr))
 	return nil
 }
 
@@ -385,7 +387,7 @@ func (r *wgRun) apply(o wgOp) (bool, error) {
 			return false, err
 		}
 		gate.release(0)
-		if err := r.db.VerifLSM().VerifWaitFlushed(r.imms-1, 20*time.Second); err != nil {
+		if err := r.db.VerifLSM().VerifWaitFlushed(r.imms-1, 8*time.Second); err != nil {
 			return false, err
 		}
 		r.imms--
@@ -411,6 +413,23 @@ func (r *wgRun) apply(o wgOp) (bool, error) {
 	case "watchdog":
 		r.wd.RunOnce()
 		term = "WWatchdog"
+	case "reopen":
+		// a restarting peer: a new WALStorage for the group on the live manager + manifest
+		var ws *engine.WALStorage
+		err := guard(func() error {
+			var e error
+			ws, e = engine.OpenWALStorage(engine.WALStorageConfig{GroupID: o.G, WAL: r.db.WAL(), Manifest: r.db.Manifest()})
+			return e
+		})
+		if err == nil && ws != nil {
+			r.ws[o.G] = ws
+			r.c.Count("reopen_ok")
+		} else {
+			r.c.Count("reopen_" + errTerm(err))
+		}
+		r.c.Count("op_" + o.K)
+		removedR := len(walIDs(r.dir)) < before
+		return removedR, r.emitAs("Wo", fmt.Sprintf("(WReopen %d) %s", o.G, corr.Bool(err == nil)), removedR)
 	default:
 		return false, fmt.Errorf("unknown op %q", o.K)
 	}
@@ -539,6 +558,11 @@ func genHistory(c *corr.Ctx) []wgOp {
 			idx := sh.trunc + 1 + uint64(r.Intn(int(sh.last-sh.trunc)))
 			ops = append(ops, wgOp{K: "compact", G: g, Idx: idx})
 			sh.trunc = idx
+			if r.Intn(3) == 0 {
+				ops = append(ops, wgOp{K: "reopen", G: g}) // a restart with truncation recorded in the pointer
+			}
+		case x < 94 && sh.last > 0:
+			ops = append(ops, wgOp{K: "reopen", G: g})
 		default:
 			ops = append(ops, wgOp{K: "watchdog"})
 		}
@@ -599,12 +623,27 @@ func runWalgc(c *corr.Ctx) error {
 		{{K: "put", Key: 0, Val: 1}, {K: "hs", G: 1, Term: 1, Vote: 1}, {K: "app", G: 1, First: 1, Ents: e(1, 5, 6)}, {K: "rotate"},
 			{K: "hs", G: 1, Term: 1, Vote: 1, Com: 2}, {K: "app", G: 1, First: 3, Ents: e(1, 7, 8)}, {K: "compact", G: 1, Idx: 3}, {K: "flush"}},
 	}
+	fixed = append(fixed,
+		// truncation recorded in the pointer, the untruncated log spans two segments, the
+		// storage is reopened, then the old segment's memtable is flushed: the pointer must
+		// still carry SegmentIndex/TruncatedIndex and segment 1 must stay
+		[]wgOp{{K: "put", Key: 0, Val: 1}, {K: "app", G: 1, First: 1, Ents: e(1, 5, 6, 7, 8)}, {K: "compact", G: 1, Idx: 2},
+			{K: "rotate"}, {K: "app", G: 1, First: 5, Ents: e(1, 9, 10)}, {K: "reopen", G: 1}, {K: "flush"},
+			{K: "put", Key: 1, Val: 2}, {K: "rotate"}, {K: "reopen", G: 1}, {K: "flush"}},
+		// reopen twice, compact again after the reopen, watchdog
+		[]wgOp{{K: "app", G: 1, First: 1, Ents: e(1, 5, 6, 7)}, {K: "hs", G: 1, Term: 1, Vote: 1}, {K: "put", Key: 0, Val: 1},
+			{K: "compact", G: 1, Idx: 1}, {K: "reopen", G: 1}, {K: "rotate"}, {K: "app", G: 1, First: 4, Ents: e(1, 8)},
+			{K: "reopen", G: 1}, {K: "compact", G: 1, Idx: 3}, {K: "watchdog"}, {K: "flush"}},
+	)
 	for _, ops := range fixed {
 		if err := emitOps(ops); err != nil {
 			return err
 		}
 	}
 	n := c.Scale(150, 3000)
+	if c.Tier == "search" && n > 300 {
+		n = 300 // the driver's search multiplies the quick count by 8; a DB open per probe makes that crawl
+	}
 	for i := 0; i < n; i++ {
 		if err := emitOps(genHistory(c)); err != nil {
 			return err
